@@ -895,6 +895,226 @@ def json_steps(pl):
 # }}}
 
 
+# {{{ falsy operands: expression objects whose Python truth value is False
+
+def falsy_trees(rng, n, g=None):
+    """`n` (family, tree, loop-variable-or-None) triples over the three families of
+    harness/falsy.py: a falsy operand in a slot of a slice (hosted where slices occur), a falsy
+    operand as a child of every other node kind, and block accesses written in a loop variable
+    (specialised afterwards by structural substitution)."""
+    from .. import falsy as fz
+    for i in range(n):
+        names = fz.Names(rng, rng.choice([0.8, 0.8, 1.0, 0.4]))
+        k = i % 3
+        if k == 0:
+            length, pos = rng.choice(fz.slice_patterns())
+            sl = fz.slice_with(rng, names, fz.falsy_operand(rng, names), length, pos)
+            family, t, loop = "slice-slot", fz.host_slice(rng, names, sl), None
+        elif k == 1:
+            family, t, loop = "child", fz.place(rng, names, fz.falsy_operand(rng, names)), None
+        else:
+            loop = rng.choice(["i", "j", "blk"])
+            family, t = "block-access", fz.block_access(rng, names, p.Variable(loop))
+        if g is not None and rng.random() < 0.35:
+            parts = [t, g.gen(rng.choice(_CTXS), rng.randint(0, 2))]
+            if rng.random() < 0.5:
+                parts.reverse()
+            t = combine_parts(rng, parts)
+        yield family, t, loop
+
+
+def specialise(rng, sx, loop):
+    """the tree with the loop variable replaced, structurally, by a constant (mostly a zero in
+    one of its Python spellings; sometimes a non-zero constant: the control)"""
+    from .. import falsy as fz
+    if loop is None:
+        return sx
+    value = rng.choice([0, 0, 0, 0, False, 0.0, -0.0, 1, 2])
+    return fz.sx_substitute(sx, loop, expr_to_sx(value))
+
+
+def _twin(expr_sx_text):
+    from .. import falsy as fz
+    return dumps(fz.truthy_twin(loads(expr_sx_text)))
+
+
+def _eval_env(e):
+    """small positive integers for every variable, tuples for those subscripted"""
+    env = {}
+    for s in scan.subterms(e):
+        if isinstance(s, p.Variable):
+            env.setdefault(s.name, 1 + (len(env) % 3))
+    for s in scan.subterms(e):
+        if isinstance(s, p.Subscript) and isinstance(s.aggregate, p.Variable):
+            env[s.aggregate.name] = list(range(12))
+    return env
+
+
+class FalsyDepStream(DepStream):
+    """The dependency analysis on trees that contain FALSY expression objects (`0*n`, `0 // k`,
+    `Sum((0*n,))`, ... with variables of their own: what substitution without constant folding
+    leaves behind) in every slot of slices - where `None` means "omitted" and a present part must
+    be told from an absent one by `is not None`, not by truthiness - and in every child position
+    of every other node kind; every flag set, cached and uncached, `composite_leaves`.  Model side
+    and reference (`oracles/scan.py`) as in the `dependencies` stream.  A failure whose truthy
+    twin (zero constants replaced by 7) passes is keyed `deps-falsy-operand-skipped`.  With all
+    composite kinds off and an environment in the payload the clause "outside of which evaluation
+    never needs a value" is checked by running the expression compiled with exactly the reported
+    variables as arguments: a NameError for a variable of the tree is
+    `deps-insufficient-for-evaluation`."""
+    name = "deps-falsy-operands"
+
+    def cases(self, rng, tier):
+        from .. import falsy as fz
+        off = dict(subscripts=False, lookups=False, calls=False, cses=False)
+        descend = [fl for fl in FLAGSETS if not fl["subscripts"]]
+        # every falsy shape in every slot of every slice length, under each host that the
+        # analysis can descend into
+        i = 0
+        for shape in sorted(set(fz.FALSY_SHAPES)):
+            for length, pos in fz.slice_patterns():
+                for host in ["bare", "subscript", "index-tuple", "call-arg", "cse"]:
+                    names = fz.Names(rng, 1.0)
+                    op = fz.falsy_operand(rng, names, 2, shape)
+                    t = fz.host_slice(rng, names, fz.slice_with(rng, names, op, length, pos), host)
+                    fl = descend[i % len(descend)]
+                    if host == "call-arg":
+                        fl = dict(fl, calls=[False, "descend_args"][i % 2])
+                    if host == "cse":
+                        fl = dict(fl, cses=False)
+                    i += 1
+                    yield {"expr": dumps(expr_to_sx(t)), "flags": fl, "cached": bool(i % 2),
+                           "composite": None, "family": "slice-slot"}
+        n = 1200 if tier == "quick" else 24000
+        g = ExprGen(rng, cse=0.1, floats=0.0, malformed=0.0, foreign=False)
+        for i, (family, t, loop) in enumerate(falsy_trees(rng, n, g)):
+            sx = specialise(rng, expr_to_sx(t), loop)
+            fl = FLAGSETS[(i // 3) % len(FLAGSETS)] if tier == "quick" else rng.choice(FLAGSETS)
+            comp = None
+            k = rng.random()
+            if k < 0.3:
+                fl = rng.choice(descend)
+            elif k < 0.4:
+                comp = rng.random() < 0.3
+                fl = dict(fl, subscripts=comp, lookups=comp, calls=comp)
+            pl = {"expr": dumps(sx), "flags": fl, "cached": rng.random() < 0.5,
+                  "composite": comp, "family": family}
+            if family == "block-access" and rng.random() < 0.5:
+                pl.update(flags=off, composite=rng.choice([None, False]),
+                          env=_eval_env(sx_to_expr(sx)))
+            yield pl
+
+    def _evaluation_failure(self, pl):
+        import pymbolic
+        e = sx_to_expr(loads(pl["expr"]))
+        try:
+            got = make_mapper(pl["flags"], pl["cached"], pl["composite"])(e)
+            names = sorted(v.name for v in got)
+        except Exception:
+            return None
+        occurring = {s.name for s in scan.subterms(e) if isinstance(s, p.Variable)}
+        env = pl["env"]
+        import warnings
+        try:
+            with warnings.catch_warnings():
+                warnings.simplefilter("ignore")     # `3[...]` in generated code: SyntaxWarning
+                code = pymbolic.compile(e, names)
+                code(*[env[nm] for nm in names])
+        except NameError as ex:
+            missing = getattr(ex, "name", None)
+            if missing in occurring and missing not in names:
+                return Failure("deps-insufficient-for-evaluation",
+                               f"evaluating {_show(e)} with values for exactly the reported "
+                               f"variables {names} needs a value for {missing!r}", pl)
+        except Exception:
+            pass
+        return None
+
+    def oracle(self, pl):
+        if pl.get("env") is not None and not any(pl["flags"].values()):
+            f = self._evaluation_failure(pl)
+            if f is not None:
+                return f
+        f = DepStream.oracle(self, pl)
+        if f is None:
+            return None
+        twin = _twin(pl["expr"])
+        if (twin != pl["expr"] and self._only_below_falsy_missing(pl)
+                and DepStream.oracle(self, {**pl, "expr": twin}) is None):
+            f.key = "deps-falsy-operand-skipped"
+            f.detail += " (correct on the twin tree whose zero constants are replaced by 7)"
+        return f
+
+    def _only_below_falsy_missing(self, pl):
+        """nothing spurious is reported, and everything missing lies below a falsy operand"""
+        from .. import falsy as fz
+        e = sx_to_expr(loads(pl["expr"]))
+        fl = pl["flags"]
+        try:
+            got = make_mapper(fl, pl["cached"], pl["composite"], pl.get("given"))(e)
+        except Exception:
+            return False
+        want = scan.dependencies(e, fl["subscripts"], fl["lookups"], fl["calls"], fl["cses"])
+        below = []
+        for s in fz.falsy_subterms(e):
+            below.extend(scan.subterms(s))
+        return got <= want and all(any(d == b for b in below) for d in want - got)
+
+    def shrink(self, pl):
+        if pl.get("env") is not None:
+            yield {k: v for k, v in pl.items() if k != "env"}
+        for s in sx_shrinks(loads(pl["expr"])):
+            yield {**pl, "expr": dumps(s)}
+
+    def stats(self, pl, mo, io, acc):
+        from .. import falsy as fz
+        DepStream.stats(self, pl, mo, io, acc)
+        fam = acc.setdefault("families", {})
+        fam[pl.get("family", "?")] = fam.get(pl.get("family", "?"), 0) + 1
+        e = sx_to_expr(loads(pl["expr"]))
+        fs = fz.falsy_subterms(e)
+        if fs:
+            acc["trees_with_falsy_operand"] = acc.get("trees_with_falsy_operand", 0) + 1
+            try:
+                if any(bool(s) for s in fs):       # the harness' rule vs the classes' __bool__
+                    acc["falsy_rule_disagrees"] = acc.get("falsy_rule_disagrees", 0) + 1
+            except Exception:
+                pass
+        if any(isinstance(s, p.Slice) and any(isinstance(c, p.Expression) and fz.is_falsy(c)
+                                               for c in s.children)
+               for s in scan.subterms(e)):
+            acc["falsy_slice_bound"] = acc.get("falsy_slice_bound", 0) + 1
+        if pl.get("env") is not None:
+            acc["evaluated"] = acc.get("evaluated", 0) + 1
+
+
+class FalsyCountStream(CountStream):
+    """node counter and flop counters on the trees of `deps-falsy-operands` (a counter that skips
+    a falsy operand misses the nodes / operations below it).  Reference and model side as in the
+    `counts` stream; a failure whose truthy twin passes is keyed `<what>-falsy-operand-skipped`."""
+    name = "counts-falsy-operands"
+
+    def cases(self, rng, tier):
+        n = 450 if tier == "quick" else 9000
+        for i, (_family, t, loop) in enumerate(falsy_trees(rng, n)):
+            sx = dumps(specialise(rng, expr_to_sx(t), loop))
+            exprs = [sx]
+            if rng.random() < 0.3:
+                exprs.append(sx if rng.random() < 0.5 else _twin(sx))
+            yield {"what": ["numnodes", "flops", "flopscse"][(i // 3) % 3], "exprs": exprs}
+
+    def oracle(self, pl):
+        f = CountStream.oracle(self, pl)
+        if f is None:
+            return None
+        twin = [_twin(s) for s in pl["exprs"]]
+        if twin != pl["exprs"] and CountStream.oracle(self, {**pl, "exprs": twin}) is None:
+            f.key = f"{pl['what']}-falsy-operand-skipped"
+        return f
+
+# }}}
+
+
 def extract(ctx=None):
     """lean/PV/Generated/Analysis.lean (and Traversal.lean, whose combine / walk tables and node
     classes it builds on) from the live source of dependency.py, flop_counter.py, analysis.py and
@@ -906,11 +1126,11 @@ def extract(ctx=None):
 PROP = Prop(
     id="C09",
     title="Dependency, node-count and flop analyses are exact",
-    lean_targets=["PV.Properties.C09", "PV.Properties.C09History"],
+    lean_targets=["PV.Properties.C09", "PV.Properties.C09History", "PV.Properties.C09Falsy"],
     theorems=[],
     extractors=[extract],
     streams=[DepStream(), CountStream(), NodeCountStream(), DepHistoryStream(),
-             CountHistoryStream()],
+             CountHistoryStream(), FalsyDepStream(), FalsyCountStream()],
     trusted_base=["Lean 4.33 kernel; axioms propext, Classical.choice, Quot.sound only",
                   "harness serialisation; Python set semantics modelled as duplicate-free lists under ==",
                   "extract/analysis.py + extract/traversal.py (ast readers of the map_* handlers, "
